@@ -502,6 +502,7 @@ class Normalizer:
                     break
             if self.propagated:
                 self._unroll_new_loops(node)      # a loop over a table that was held in a temporary
+        _identity_comprehensions(node)
         _split_tuple_assignments(node)
         if snap is not None and not os.environ.get("TYVERIF_NO_LOCALS"):
             for _ in range(2):
@@ -1038,3 +1039,15 @@ def _split_tuple_assignments(fnode):
             out.append(st)
         return out
     fnode.body = rec(fnode.body)
+
+
+def _identity_comprehensions(fnode):
+    """[x for x in E] -> list(E): one spelling for 'materialise the iterable'"""
+    class R(ast.NodeTransformer):
+        def visit_ListComp(self, n):
+            self.generic_visit(n)
+            if len(n.generators) == 1 and not n.generators[0].ifs and not n.generators[0].is_async and isinstance(n.elt, ast.Name) \
+                    and isinstance(n.generators[0].target, ast.Name) and n.elt.id == n.generators[0].target.id:
+                return ast.copy_location(ast.Call(func=ast.Name(id="list", ctx=ast.Load()), args=[n.generators[0].iter], keywords=[]), n)
+            return n
+    R().visit(fnode)
